@@ -797,8 +797,26 @@ impl RuleCatalog {
         let content = serde_json::to_string_pretty(&catalog_file)
             .map_err(|e| format!("Failed to serialize catalog: {e}"))?;
 
-        fs::write(&self.catalog_path, content)
+        // Write atomically (temp file, fsync, rename, directory fsync): rewriting the
+        // catalog in place would leave an empty or half-written file after a crash,
+        // and a catalog that does not parse keeps the whole engine from opening.
+        let tmp_path = self.catalog_path.with_extension("json.tmp");
+        {
+            use std::io::Write;
+            let mut file = fs::File::create(&tmp_path)
+                .map_err(|e| format!("Failed to write catalog: {e}"))?;
+            file.write_all(content.as_bytes())
+                .map_err(|e| format!("Failed to write catalog: {e}"))?;
+            file.sync_all()
+                .map_err(|e| format!("Failed to write catalog: {e}"))?;
+        }
+        fs::rename(&tmp_path, &self.catalog_path)
             .map_err(|e| format!("Failed to write catalog: {e}"))?;
+        if let Some(parent) = self.catalog_path.parent() {
+            if let Ok(dir) = fs::File::open(parent) {
+                let _ = dir.sync_all();
+            }
+        }
 
         self.dirty = false;
         Ok(())
